@@ -483,3 +483,22 @@ Proof.
   apply (wf_move_when_stale [107; 55; 114; 52; 114] stale_n3 48 [] []); try reflexivity.
   apply (wf_end false _ []). reflexivity.
 Qed.
+
+(* ================= the reader never indexes an empty accumulator ================= *)
+(* the source guards bytes[len(bytes)-1] with len(bytes) > 0 (regenerated value); win_byte is
+   written with that guard *)
+Lemma win_dup_guard_src_ok : Consts.win_dup_guard_nonempty = true.
+Proof. reflexivity. Qed.
+
+Theorem win_never_indexes_empty st acc c :
+  win_index_panics Consts.win_dup_guard_nonempty st acc c = false.
+Proof.
+  rewrite win_dup_guard_src_ok. unfold win_index_panics, win_reads_last.
+  destruct (nonempty acc); [apply andb_false_r|]. cbn [negb]. rewrite !andb_false_r. reflexivity.
+Qed.
+
+(* without the guard it does: LF, a cursor-position sequence, then the first letter of a line *)
+Theorem win_unguarded_indexes_empty :
+  exists st, win_fold w_init [] [LF; ESC; 91; 50; 53; 59; 49; 49; 57; 72] = Some (st, []) /\
+             win_index_panics false st [] 35 = true.
+Proof. eexists. split; [vm_compute; reflexivity|vm_compute; reflexivity]. Qed.
